@@ -13,6 +13,7 @@ mod p05;
 mod p06;
 mod p07;
 mod p08;
+mod p09;
 mod zlib;
 mod zmodel;
 mod p17;
@@ -97,6 +98,7 @@ fn main() {
         "C06" => p06::run(&mut c),
         "C07" => p07::run(&mut c),
         "C08" => p08::run(&mut c),
+        "C09" => p09::run(&mut c),
         "C17" => p17::run(&mut c),
         "C18" => p18::run(&mut c),
         "C19" => p19::run(&mut c),
